@@ -29,7 +29,7 @@ def norm_model(m):
         calls.append({"path": c["path"], "idx": c["idx"], "args": [list(a) for a in c["args"]],
                       "step": c["step"], "frame": c["frame"], "node": c["node"], "dec": list(c["dec"])})
     return {"status": m["status"], "values": vals, "err": m["err"], "pause": m["pause"], "calls": calls,
-            "steps": m["steps"], "aux": m.get("aux", {}), "done": [d["path"] for d in m.get("done", [])]}
+            "steps": m["steps"], "raw_keys": list(m.get("raw_keys", [])), "aux": m.get("aux", {}), "done": [d["path"] for d in m.get("done", [])]}
 
 
 def try_real(job, **kw):
@@ -42,7 +42,7 @@ def try_real(job, **kw):
 
 
 def per_node(calls):
-    d = collections.OrderedDict()
+    d = {}
     for c in calls:
         d.setdefault(c["path"], []).append([list(a) for a in c["args"]])
     return d
